@@ -887,10 +887,19 @@ func ruleC09SearchList(w *World, r *Report) {
 		}
 		return false
 	}
+	// The search is what precedes the choice: a write belongs to it when the statement that labels the
+	// chosen QER can still follow. What is written once the QER is chosen (the move of the session QER to
+	// the end of every PDR's list, by append or by copy + element store) does not narrow anything; its
+	// contract is R03.8.
+	isLabel := func(i ssa.Instruction) bool {
+		st, ok := i.(*ssa.Store)
+		return ok && loadsFieldAddr(st.Addr, "qosLevel")
+	}
+	inSearch := func(i ssa.Instruction) bool { return reach(mark, i, isLabel, nil, nil) != nil }
 	allInstrs(mark, func(i ssa.Instruction) {
 		switch x := i.(type) {
 		case *ssa.Call:
-			if calleeName(x) != "builtin.copy" {
+			if calleeName(x) != "builtin.copy" || !inSearch(i) {
 				return
 			}
 			n++
@@ -901,7 +910,7 @@ func ruleC09SearchList(w *World, r *Report) {
 			if !ok {
 				return
 			}
-			if et, isU := ia.Type().Underlying().(*types.Pointer); !isU || et.Elem().String() != "uint32" {
+			if et, isU := ia.Type().Underlying().(*types.Pointer); !isU || et.Elem().String() != "uint32" || !inSearch(i) {
 				return
 			}
 			n++
@@ -962,6 +971,32 @@ func ruleC09MeterArray(w *World, r *Report) {
 		}
 	}
 	reset := w.Fn(P, "pfcpiface.(*UP4).resetMeters")
+	// the array a reset call writes to is what the callee puts into MeterEntry.MeterId: a constant of its
+	// own, or the argument the call passes for the parameter that ends up there — whichever position that
+	// parameter has in the signature. Every entry the callee builds must name the same array.
+	resetArray := func(callee *ssa.Function, args []ssa.Value, phiConst func(ssa.Value) (int64, bool)) (int64, bool) {
+		arr, known, bad := int64(0), false, false
+		allInstrs(callee, func(i ssa.Instruction) {
+			st, ok := i.(*ssa.Store)
+			if !ok || !loadsFieldAddr(st.Addr, "MeterId") {
+				return
+			}
+			v := stripConv(st.Val)
+			k, isK := constInt(v)
+			if par, isPar := v.(*ssa.Parameter); isPar {
+				for pi, fp := range callee.Params {
+					if fp == par && pi < len(args) {
+						k, isK = phiConst(args[pi])
+					}
+				}
+			}
+			if !isK || (known && k != arr) {
+				bad = true
+			}
+			arr, known = k, true
+		})
+		return arr, known && !bad
+	}
 	// for each kind of meter: follow the paths that kind takes (every comparison of the meter's type with a
 	// constant decided, everything else both ways) and look at the array each reset call names on them
 	for _, kind := range []struct {
@@ -990,7 +1025,7 @@ func ruleC09MeterArray(w *World, r *Report) {
 			if !ok || staticCallee(c) == nil || staticCallee(c).Name() != "resetMeter" {
 				return
 			}
-			k, isK := phiConst(c.Common().Args[1])
+			k, isK := resetArray(staticCallee(c), c.Common().Args, phiConst)
 			if seenCall[i] && isK && k == kind.arr {
 				return
 			}
@@ -1057,8 +1092,13 @@ func ruleC09QciTable(w *World, r *Report) {
 		mu, ok := i.(*ssa.MapUpdate)
 		return ok && isTable(mu.Map) && strings.Contains(symOf(mu.Key).String(), "QCI")
 	}
+	// overwrites: every iteration of every loop over the configuration stores its entry under its own QCI,
+	// whatever the table holds for that key
+	overwrites := len(loops) > 0
 	for _, l := range loops {
-		r.check(everyIteration(f, l[1], l[0], isConfStore), "R09.10", fn, "every configured QCI entry is stored", w.Pos(f.Pos()), "map update on every iteration", "an iteration over qci_qos_config can skip its entry (e.g. because the key is already present): the operator's entry — in particular \"qci\": 0, the fallback for unlisted QFIs and every session QER — is dropped in favour of what was there before")
+		every := everyIteration(f, l[1], l[0], isConfStore)
+		overwrites = overwrites && every
+		r.check(every, "R09.10", fn, "every configured QCI entry is stored", w.Pos(f.Pos()), "map update on every iteration", "an iteration over qci_qos_config can skip its entry (e.g. because the key is already present): the operator's entry — in particular \"qci\": 0, the fallback for unlisted QFIs and every session QER — is dropped in favour of what was there before")
 	}
 	n := 0
 	allInstrs(f, func(i ssa.Instruction) {
@@ -1100,6 +1140,20 @@ func ruleC09QciTable(w *World, r *Report) {
 					if !l[0].Dominates(x.Block()) || reachesBlock(x.Block(), l[0]) {
 						after = false
 					}
+				}
+				// "Only fills a gap" is a statement about the table the function leaves behind. The
+				// built-in entry may as well be there first: stored once before the configuration is
+				// read (not inside a loop over it), it survives exactly when no configured entry has
+				// QCI 0 — provided every configured entry is stored over whatever is there.
+				first := overwrites
+				for _, l := range loops {
+					if !x.Block().Dominates(l[0]) || x.Block() == l[0] || reachesBlock(l[1], x.Block()) {
+						first = false
+					}
+				}
+				if first {
+					r.ok("R09.10", fn, "the built-in QCI 0 entry only fills a gap the configuration left", w.Pos(x.Pos()), "before the loop, and every configured entry overwrites")
+					return
 				}
 				r.check(g && after, "R09.10", fn, "the built-in QCI 0 entry only fills a gap the configuration left", w.Pos(x.Pos()), "after the loop, under 'key 0 not found'", "the built-in fallback for QCI 0 is installed "+ifelse(after, "without checking that the configuration has none", "before the configuration is read")+": a configured \"qci\": 0 entry does not take effect")
 			}
